@@ -113,14 +113,15 @@ def main(mod, argv):
     dist = {}
     if ctx.hdir:
         if a.replay:
-            lines = [l.rstrip("\n") for l in open(a.replay) if not l.startswith("# ")]
-            cw.add(lines, {"replay": a.replay, **getattr(mod, "replay_meta", lambda l: {})(lines)})
+            lines, m0 = C.load_case(a.replay)
+            m = dict(getattr(mod, "replay_meta", lambda l: {})(lines)); m.update(m0); m["replay"] = a.replay
+            cw.add(lines, m)
         else:
             # known-finding witnesses and the regression corpus run first
             for e in C.known_findings(prop):
                 w = os.path.join(C.VERIF, e["witness"])
-                lines = [l.rstrip("\n") for l in open(w) if not l.startswith("# ")]
-                m = dict(getattr(mod, "replay_meta", lambda l: {})(lines)); m.update(e.get("meta", {}))
+                lines, m0 = C.load_case(w)
+                m = dict(getattr(mod, "replay_meta", lambda l: {})(lines)); m.update(m0); m.update(e.get("meta", {}))
                 m.update(finding_witness=e["id"], kind=e["kind"])
                 cw.add(lines, m, name="finding-" + e["id"])
             for (lines, meta) in mod.generate(ctx):
@@ -179,7 +180,7 @@ def main(mod, argv):
         if shown >= 5: break
         shown += 1
         rp = C.save_replay(prop, p, dict(property=prop, kind="failing-input", seed=seed, tier=tier,
-                                         family=meta.get("family", "?"), what=f.text[:300]))
+                                         family=meta.get("family", "?"), what=f.text[:300], meta=meta))
         res.violation(rp, f.text)
     if not real and (broken or mismatches):
         # the property is no longer shown to hold; hunt for a concrete failing input
